@@ -371,10 +371,11 @@ class InterpCore:
                     raise mk_exc(UnboundLocalError, name, where=fr.where())
                 if isinstance(v, SymOpt) and not fr.spec:
                     # narrow Optional locals once the path condition decides them
-                    if self.ctx.check(v.is_none) == z3.unsat:
+                    d = self.ctx.decided(v.is_none)
+                    if d is False:
                         f.locals[name] = v.value
                         return v.value
-                    if self.ctx.check(z3.Not(v.is_none)) == z3.unsat:
+                    if d is True:
                         f.locals[name] = None
                         return None
                 return v
